@@ -251,6 +251,28 @@ fn replay(prop: &str, file: &str) -> i32 {
         eprintln!("MACHINERY: family {fname} not found");
         return 2;
     };
+    if f.sanitized() && std::env::var_os("MC_SANITIZED_WORKER").is_none() {
+        // a case of the memory-safety layer is replayed by the instrumented build of this harness
+        let Some(exe) = engine::asan_exe() else {
+            eprintln!("MACHINERY: the AddressSanitizer build of the harness is not available (run ./check C01 quick once)");
+            return 2;
+        };
+        let out = std::process::Command::new(exe)
+            .args([prop, "--replay", file])
+            .env("ASAN_OPTIONS", "detect_leaks=0:abort_on_error=1:malloc_context_size=8:handle_segv=1")
+            .env("MC_SANITIZED_WORKER", "1")
+            .output()
+            .expect("run the instrumented harness");
+        print!("{}", String::from_utf8_lossy(&out.stdout));
+        let err = String::from_utf8_lossy(&out.stderr).to_string();
+        if let Some(at) = err.find("ERROR: AddressSanitizer") {
+            println!("VIOLATION property={prop} replay={file}");
+            println!("  {}", err[at..].lines().take(16).collect::<Vec<_>>().join("\n  "));
+            return 1;
+        }
+        eprint!("{err}");
+        return out.status.code().unwrap_or(1);
+    }
     println!("{}", serde_json::to_string_pretty(&f.describe(idx)).unwrap());
     let a = run_one(f.as_ref(), idx);
     let b = run_one(f.as_ref(), idx);
